@@ -518,6 +518,12 @@ func (w *worker[T, JobType]) start() error {
 		return ErrRunningWorker
 	}
 
+	// a worker is started only once per run: binding another queue must not resume a
+	// paused worker or revive a stopped one (Resume and Restart do that)
+	if w.status.Load() != initiated {
+		return ErrNotRunningWorker
+	}
+
 	defer w.notifyToPullNextJobs()
 	defer w.status.Store(running)
 
